@@ -1,10 +1,10 @@
 """C20 plan (see lib/plan.py for the format)."""
-from plan import R, D, stages
+from plan import R, D, T, stages
 
 PLAN = dict(
     **stages(
-        quick=[(R, "quick", 16), (D, "small", 16)],
-        thorough=[(R, "thorough", 16), (D, "quick", 16)],
+        quick=[(R, "quick", 16), (D, "small", 16), (T, "small", 16)],
+        thorough=[(R, "thorough", 16), (D, "quick", 16), (T, "quick", 16)],
     ),
     rule=("cases are package database trees built by the harness in a scratch directory: 0-12 package "
           "directories with 1-4 '-' and nb revisions in their names, every subset of +COMMENT/+CONTENTS/+DESC "
